@@ -31,20 +31,13 @@ def dumpNode (w : Net) (nd : Node) : String :=
   let ridx := (sortByKey nd.main.remoteIndexes).map (fun (k, h) => s!"{k}>{h.localIndex}")
   s!"P[{join "," pend}] PI[{join "," pidx}] H[{join "," hosts}] I[{join "," idx}] R[{join "," ridx}]"
 
-/-- consecutive writes of one packet are one group -/
-def groupTx : List (String × List String) → List (String × List String)
-  | (a, da) :: (b, db) :: rest =>
-    if a == b then groupTx ((a, da ++ db) :: rest) else (a, da) :: groupTx ((b, db) :: rest)
-  | l => l
-termination_by l => l.length
-
 /-- canonical transmissions -/
 def txString (w : Net) (txs : List Tx) : String :=
   let items := txs.map (fun t => match t with
     | .hs h dsts => (s!"h{(w.pidOf h).getD 0}", dsts.map toString)
     | .msg len d => (s!"m{len}", [toString d])
     | .close d => ("c", [toString d]))
-  let items := (groupTx items).map (fun (n, d) => n ++ ">" ++ join "+" (sortStrs d))
+  let items := (HsManager.groupTx items).map (fun (n, d) => n ++ ">" ++ join "+" (sortStrs d))
   s!"T[{join "," items}]"
 
 def parseSpec (node : Nat) (retries : Int) (intervalMs : Nat) (s : String) : Option Cfg :=
